@@ -343,7 +343,7 @@ def harnesses(tier):
     q = tier == "quick"
     hs = []
     N = 4 if q else 6
-    T = 600 if q else 2400
+    T = 600 if q else 900
     for k in ([1, 2] if q else [1, 2, 3]):
         hs.append(H("ctorB_k%d" % k, ctorB, dict(k=k, N=N), FUNCS_CORE,
                     covers=["accepted", "refused"], modeb=True, stubs=STUBS_B,
